@@ -1,9 +1,12 @@
 #!/bin/sh
-# usage: tools_mkmut.sh C16  -> creates scratch worktree /tmp/mut/C16/wt and /tmp/mut/C16/PROPERTY.json
+# usage: tools_mkmut.sh C16  -> creates scratch worktree /tmp/mut/C16/wt (contract files removed, so the
+# sub-agent sees only murex) and /tmp/mut/C16/PROPERTY.json; the prompt is tools_mut_prompt.txt
 set -e
 id=$1
 mkdir -p /tmp/mut/$id/out
+cp /verif/tools_mut_prompt.txt /tmp/mut/PROMPT.txt
 git -C /repo worktree add --detach /tmp/mut/$id/wt HEAD >/dev/null 2>&1
+( cd /tmp/mut/$id/wt && find . -name 'zz_verif_*' -delete && git -c user.name=x -c user.email=x@x commit -qam "scratch: no contract files" )
 python3 - "$id" <<'P'
 import json,sys
 for l in open('/verif/properties.jsonl'):
